@@ -108,9 +108,10 @@ Qed.
 Lemma copy_into_ok cap n : n <= cap -> copy_into cap n = Ok tt.
 Proof. intros H. unfold copy_into. apply N.leb_le in H. now rewrite H. Qed.
 
-Theorem dd_page_good : forall alim f ps flags size off, good (dd_page alim f ps flags size off).
+Theorem dd_page_good : forall alim f flen ps flags size off, good (dd_page alim f flen ps flags size off).
 Proof.
   intros. unfold dd_page.
+  destruct (negb (extent_ok flen off size)); [auto|].
   destruct (negb (N.land flags DUMP_DH_COMPRESSED =? 0)).
   - destruct (get_chunk_cases alim f size off) as [[c [H _]]|[st [H Hs]]]; rewrite H; cbn [bind];
       [auto|now apply good_chunk_err].
